@@ -15,6 +15,16 @@
 // panicked are not sent: the server cannot recover a panic and would take the
 // whole worker down; if it dies anyway the worker death is a violation).
 //
+// Histories (the address space changes while the server runs): on a brand-new
+// server per history, [optionally one Browse with IncludeSubtypes for a
+// supertype T of P, direct or over the wire] -> a new ReferenceType node is
+// added below P through the public API (NewNode / AddNode / AddRef, HasSubtype
+// in both notations) together with two nodes joined by references of the new
+// type -> the oracle is recomputed from the address space -> grid of Browses
+// on the touched nodes -> the same once more one level deeper (new type below
+// the first new type) -> grid again. P ranges over a few types (thorough: every
+// ReferenceType node), T over {none, P, every supertype of P}.
+//
 // Oracle: computed from the node's reference list (read through the verif
 // hook) with an independent subtype closure (own walk over HasSubtype
 // references, both notations). Result compared as a set of
@@ -182,7 +192,21 @@ func buildC33World() (*c33World, error) {
 	if err != nil {
 		return nil, err
 	}
-	w := &c33World{srv: s, url: url, byID: map[string]*server.Node{}, sub: map[string]map[string]bool{}, refs: map[string][]wref{}, nkeys: map[string]int{}, ids: map[string]*ua.NodeID{}}
+	w := &c33World{srv: s, url: url, ids: map[string]*ua.NodeID{}}
+	if err := w.index(); err != nil {
+		s.Close()
+		return nil, err
+	}
+	return w, nil
+}
+
+// index (re)computes the oracle's view of the address space from what the
+// server holds now: node list, ReferenceType nodes, the independent subtype
+// closure and the well-formed references per node.
+func (w *c33World) index() error {
+	s := w.srv
+	w.nodes, w.refTypes, w.unknownTypes, w.illForm = nil, nil, nil, 0
+	w.byID, w.sub, w.refs, w.nkeys = map[string]*server.Node{}, map[string]map[string]bool{}, map[string][]wref{}, map[string]int{}
 	for _, ns := range s.Namespaces() {
 		nn, ok := ns.(*server.NodeNameSpace)
 		if !ok {
@@ -306,13 +330,13 @@ func buildC33World() (*c33World, error) {
 	} {
 		k := u.id.String()
 		if w.byID[k] != nil && w.byID[k].NodeClass() == ua.NodeClassReferenceType {
-			return nil, fmt.Errorf("%s was meant to denote no ReferenceType node", k)
+			return fmt.Errorf("%s was meant to denote no ReferenceType node", k)
 		}
 		w.unknownTypes = append(w.unknownTypes, k)
 		w.unknownKind[k] = u.kind
 		w.ids[k] = u.id
 	}
-	return w, nil
+	return nil
 }
 
 type refKey struct {
@@ -557,9 +581,13 @@ func (w *c33World) triples(nodes []string) int {
 
 func c33() {
 	r := evid.New("C33")
-	var rc c33Case
+	var rc c33Input
 	if evid.ReplayInput(&rc) {
-		c33Replay(rc)
+		if rc.History != nil {
+			c33ReplayHist(*rc.History)
+			return
+		}
+		c33Replay(rc.c33Case)
 		return
 	}
 	thorough := evid.Thorough()
@@ -572,8 +600,8 @@ func c33() {
 		r.Violate("Browse/wire/server-died/"+fn, fmt.Sprintf("worker died while running %s\n%s\n%s", d.LastCase, head, lastLines(d.Stderr, 30)), d.LastCase)
 		r.Capped(fmt.Sprintf("worker %d died; the rest of its shard was not run", d.Shard))
 	}
-	r.Rule("every (requested reference type in all ReferenceType nodes + null + 9 ids that denote no ReferenceType node: string (added namespace, ns0), GUID, opaque, numeric 0 and an unused numeric id in the added namespace, unused numeric id in ns0, namespace out of range, the Objects folder) x IncludeSubtypes{false,true} x direction{Forward,Inverse,Both} x class mask{0, 8 single bits, 255} on each node of the node set (quick: greedy cover of every (reference type, direction, target class) triple occurring in ns0 + every node of the added namespace; thorough: every node), each executed directly (NameSpace.Browse) and over the wire (real client); evaluations = executed Browse operations; non-trivial = the node has at least one well-formed reference; distinct = (requested type, subtypes, direction, mask, shape of the expected result: none/some/all)")
-	r.Assume("only well-formed references (non-nil target, names, type definition) are judged; null requested reference type executed but not judged; a requested reference type that is not null and denotes no ReferenceType node matches nothing (expected result: empty); a reference whose recorded target class differs from the target node's class is not judged when the mask would decide differently")
+	r.Rule("every (requested reference type in all ReferenceType nodes + null + 9 ids that denote no ReferenceType node: string (added namespace, ns0), GUID, opaque, numeric 0 and an unused numeric id in the added namespace, unused numeric id in ns0, namespace out of range, the Objects folder) x IncludeSubtypes{false,true} x direction{Forward,Inverse,Both} x class mask{0, 8 single bits, 255} on each node of the node set (quick: greedy cover of every (reference type, direction, target class) triple occurring in ns0 + every node of the added namespace; thorough: every node), each executed directly (NameSpace.Browse) and over the wire (real client); plus histories on a brand-new server each: [no Browse | one Browse with IncludeSubtypes for T in {P, every supertype of P}, direct or wire] -> add a ReferenceType node below P (P in Organizes, the custom type of the added namespace, HasComponent, NonHierarchicalReferences, References; thorough: every ReferenceType node) and two nodes joined by references of the new type -> Browse grid (new type, its supertypes and 6 other types x IncludeSubtypes x 3 directions x masks {0, Object, Variable, 255} x direct/wire on the new nodes, the new type node, the supertype node and a folder) -> add a second ReferenceType node below the first one with two more nodes -> the grid again; evaluations = executed Browse operations; non-trivial = the node has at least one well-formed reference; distinct = (requested type, subtypes, direction, mask, shape of the expected result: none/some/all)")
+	r.Assume("only well-formed references (non-nil target, names, type definition) are judged; null requested reference type executed but not judged; a requested reference type that is not null and denotes no ReferenceType node matches nothing (expected result: empty); a reference whose recorded target class differs from the target node's class is not judged when the mask would decide differently", "histories: the new ReferenceType node is declared like the ones the server imports (HasSubtype forward on the supertype and inverse on the subtype); the oracle is recomputed from the address space after every extension")
 	r.Finish()
 }
 
@@ -668,6 +696,275 @@ func c33Worker(s evid.ShardInfo, r *evid.Run, thorough bool) {
 			}
 			c33Wire(w, cl, r, wire)
 		}
+	}
+
+	// histories in which the reference type hierarchy grows while the server runs
+	hists := c33Histories(w, thorough)
+	if s.Index == 0 {
+		r.Set("histories", len(hists))
+	}
+	for i, h := range hists {
+		if !s.Mine(int64(i)) {
+			continue
+		}
+		evid.Publish(fmt.Sprintf("history %+v", h))
+		err := c33RunHist(h, func(stage int, browsed bool, c c33Case, nontrivial bool, res *ua.BrowseResult, pan, detail string, hw *c33World) {
+			sfx, input := "", any(c)
+			if stage > 0 {
+				sfx = "/after-reference-type-added"
+				if browsed {
+					sfx += "-following-a-browse"
+				}
+				input = c33Input{c33Case: c, History: &h, Stage: stage}
+			}
+			if pan != "" {
+				r.Eval("")
+				r.Outcome("history-" + c.Path + ":panic")
+				r.Violate(fmt.Sprintf("%sincludeSubtypes=%v/requested=%s/panic/%s%s", hw.pfx(c), c.Sub, hw.reqClass(c.RefType), pan, sfx), fmt.Sprintf("%s; case %+v history %+v stage %d", detail, c, h, stage), input)
+				return
+			}
+			vs, shape := hw.judge(c, res)
+			key := ""
+			if nontrivial && c.Path == "direct" {
+				key = fmt.Sprint("hist", h.Parent, h.Warm, h.WarmPath, stage, c.Node, c.RefType, c.Sub, c.Dir, c.Mask, shape)
+			}
+			r.Eval(key)
+			r.Outcome("history-" + c.Path + ":" + shape)
+			if shape == "notjudged" {
+				r.NotJudged(1)
+			}
+			for _, v := range vs {
+				r.Violate(v.sig+sfx, fmt.Sprintf("%s; history %+v stage %d", v.detail, h, stage), input)
+			}
+		})
+		if err != nil {
+			evid.EngineError("C33", "history %+v: %v", h, err)
+		}
+	}
+}
+
+// c33Hist is one history in which the reference type hierarchy is extended on a running server.
+type c33Hist struct {
+	Parent   string `json:"parent"`             // the new ReferenceType node becomes a subtype of this one
+	Warm     string `json:"browse_before"`      // "" = no Browse before the extension, else the requested type (IncludeSubtypes=true)
+	WarmPath string `json:"browse_before_path"` // direct | wire
+}
+
+// c33Input is what a replay file holds: a plain case, or a case inside a history.
+type c33Input struct {
+	c33Case
+	History *c33Hist `json:"history,omitempty"`
+	Stage   int      `json:"stage,omitempty"`
+}
+
+func rtID(i uint32) string { return ua.NewNumericNodeID(0, i).String() }
+
+func (w *c33World) addedNS() uint16 {
+	for _, ns := range w.srv.Namespaces() {
+		if nn, ok := ns.(*server.NodeNameSpace); ok && nn.ID() != 0 {
+			return nn.ID()
+		}
+	}
+	return 1
+}
+
+func (w *c33World) supertypes(t string) []string {
+	var out []string
+	for _, sup := range w.refTypes {
+		if w.sub[sup][t] {
+			out = append(out, sup)
+		}
+	}
+	sort.Strings(out)
+	return out
+}
+
+func c33Histories(w *c33World, thorough bool) []c33Hist {
+	parents := []string{rtID(id.Organizes), ua.NewNumericNodeID(w.addedNS(), 5000).String(), rtID(id.HasComponent), rtID(id.NonHierarchicalReferences), rtID(id.References)}
+	if thorough {
+		parents = append([]string{}, w.refTypes...)
+	}
+	var out []c33Hist
+	for _, p := range parents {
+		out = append(out, c33Hist{Parent: p})
+		for _, t := range append([]string{p}, w.supertypes(p)...) {
+			for _, path := range []string{"direct", "wire"} {
+				out = append(out, c33Hist{Parent: p, Warm: t, WarmPath: path})
+			}
+		}
+	}
+	return out
+}
+
+// c33RunHist executes one history on a brand-new server and hands every Browse to emit
+// (stage 0 = the Browse before the extension, judged like any grid case).
+func c33RunHist(h c33Hist, emit func(stage int, browsed bool, c c33Case, nontrivial bool, res *ua.BrowseResult, pan, detail string, w *c33World)) error {
+	w, err := buildC33World()
+	for try := 0; err != nil && try < 3; try++ {
+		w, err = buildC33World()
+	}
+	if err != nil {
+		return err
+	}
+	defer w.srv.Close()
+	cl, err := connectClient(w.url)
+	for try := 0; err != nil && try < 3; try++ {
+		cl, err = connectClient(w.url)
+	}
+	if err != nil {
+		return fmt.Errorf("client connect: %v", err)
+	}
+	defer cl.Close(context.Background())
+
+	run := func(stage int, browsed bool, cases []c33Case) error {
+		var wire []c33Case
+		for _, c := range cases {
+			nontrivial := len(w.refs[c.Node]) > 0
+			if c.Path == "direct" {
+				res, pan, detail := w.browseDirect(c)
+				emit(stage, browsed, c, nontrivial, res, pan, detail, w)
+				continue
+			}
+			wire = append(wire, c)
+		}
+		for len(wire) > 0 {
+			n := 200
+			if n > len(wire) {
+				n = len(wire)
+			}
+			cur := wire[:n]
+			wire = wire[n:]
+			req := &ua.BrowseRequest{}
+			for _, c := range cur {
+				req.NodesToBrowse = append(req.NodesToBrowse, w.desc(c))
+			}
+			ctx, cancel := context.WithTimeout(context.Background(), watchdog)
+			resp, err := cl.Browse(ctx, req)
+			cancel()
+			if err != nil || resp == nil || len(resp.Results) != len(cur) {
+				return fmt.Errorf("wire browse of %d descriptions %+v..: %v", len(cur), cur[0], err)
+			}
+			for i, c := range cur {
+				emit(stage, browsed, c, len(w.refs[c.Node]) > 0, resp.Results[i], "", "", w)
+			}
+		}
+		return nil
+	}
+
+	nsid := w.addedNS()
+	var nns *server.NodeNameSpace
+	for _, ns := range w.srv.Namespaces() {
+		if nn, ok := ns.(*server.NodeNameSpace); ok && nn.ID() == nsid {
+			nns = nn
+		}
+	}
+	if nns == nil {
+		return fmt.Errorf("added namespace not found")
+	}
+	folder := ua.NewStringNodeID(nsid, "folder").String()
+	browsed := false
+	if h.Warm != "" {
+		if err := run(0, false, []c33Case{{Node: folder, RefType: h.Warm, Sub: true, Dir: 2, Mask: 0, Path: h.WarmPath}}); err != nil {
+			return err
+		}
+		browsed = true
+	}
+	hasSubtype := ua.NewNumericNodeID(0, id.HasSubtype)
+	parent := h.Parent
+	touched := []string{folder}
+	for stage := 1; stage <= 2; stage++ {
+		pn := w.srv.Node(w.nid(parent))
+		if pn == nil {
+			return fmt.Errorf("no node %s", parent)
+		}
+		// the new reference type, declared in both notations like the imported ones
+		newType := ua.NewNumericNodeID(nsid, uint32(6000+stage))
+		tn := nns.AddNode(server.NewNode(newType, map[ua.AttributeID]*ua.DataValue{
+			ua.AttributeIDNodeClass:  server.DataValueFromValue(uint32(ua.NodeClassReferenceType)),
+			ua.AttributeIDBrowseName: server.DataValueFromValue(attrs.BrowseName(fmt.Sprintf("VerifAdded%d", stage))),
+		}, []*ua.ReferenceDescription{rd(hasSubtype, false, pn.ID(), "supertype", ua.NodeClassReferenceType)}, nil))
+		pn.AddRef(tn, id.HasSubtype, true)
+		// two nodes joined by references of the new type (forward on one, inverse on the other)
+		src := ua.NewStringNodeID(nsid, fmt.Sprintf("evo-src%d", stage))
+		dst := ua.NewStringNodeID(nsid, fmt.Sprintf("evo-dst%d", stage))
+		sn := nns.AddNode(mkVar(src, fmt.Sprintf("evo-src%d", stage), ua.NodeClassObject, []*ua.ReferenceDescription{
+			rd(newType, true, dst, fmt.Sprintf("evo-dst%d", stage), ua.NodeClassVariable),
+			rd(ua.NewNumericNodeID(0, id.HasProperty), true, dst, fmt.Sprintf("evo-dst%d", stage), ua.NodeClassVariable),
+		}))
+		nns.AddNode(mkVar(dst, fmt.Sprintf("evo-dst%d", stage), ua.NodeClassVariable, []*ua.ReferenceDescription{
+			rd(newType, false, src, fmt.Sprintf("evo-src%d", stage), ua.NodeClassObject),
+			rd(ua.NewNumericNodeID(0, id.HasProperty), false, src, fmt.Sprintf("evo-src%d", stage), ua.NodeClassObject),
+		}))
+		nns.Objects().AddRef(sn, id.Organizes, true)
+		sn.AddRef(nns.Objects(), id.Organizes, false)
+		if err := w.index(); err != nil {
+			return err
+		}
+		nt := newType.String()
+		if !w.sub[parent][nt] || w.byID[nt] == nil || len(w.refs[src.String()]) != 3 {
+			return fmt.Errorf("the oracle does not see the extension: %s below %s", nt, parent)
+		}
+		touched = append(touched, src.String(), dst.String(), nt, parent)
+		// requested types: the new type, everything above it, and a few others
+		seen := map[string]bool{}
+		var types []string
+		for _, t := range append(append([]string{nt}, w.supertypes(nt)...), rtID(id.References), rtID(id.NonHierarchicalReferences), rtID(id.Organizes), rtID(id.HasTypeDefinition), rtID(id.HasSubtype), rtID(id.HasProperty)) {
+			if !seen[t] {
+				seen[t] = true
+				types = append(types, t)
+			}
+		}
+		var cases []c33Case
+		seenNode := map[string]bool{}
+		for _, node := range touched {
+			if seenNode[node] {
+				continue
+			}
+			seenNode[node] = true
+			for _, t := range types {
+				for _, sub := range []bool{true, false} {
+					for dir := 0; dir < 3; dir++ {
+						for _, mask := range []uint32{0, 1, 2, 255} {
+							for _, path := range []string{"direct", "wire"} {
+								cases = append(cases, c33Case{Node: node, RefType: t, Sub: sub, Dir: dir, Mask: mask, Path: path})
+							}
+						}
+					}
+				}
+			}
+		}
+		if err := run(stage, browsed, cases); err != nil {
+			return err
+		}
+		browsed = true
+		parent = nt
+	}
+	return nil
+}
+
+func c33ReplayHist(h c33Hist) {
+	fmt.Printf("replay history %+v\n", h)
+	failed := false
+	n := 0
+	err := c33RunHist(h, func(stage int, browsed bool, c c33Case, nontrivial bool, res *ua.BrowseResult, pan, detail string, w *c33World) {
+		n++
+		if pan != "" {
+			fmt.Printf(" stage %d %+v panicked in %s: %s\n", stage, c, pan, detail)
+			failed = true
+			return
+		}
+		vs, _ := w.judge(c, res)
+		for _, v := range vs {
+			fmt.Printf(" DISCREPANCY stage %d %s: %s\n", stage, v.sig, v.detail)
+			failed = true
+		}
+	})
+	if err != nil {
+		evid.EngineError("C33", "%v", err)
+	}
+	fmt.Printf(" %d browses\n", n)
+	if failed {
+		os.Exit(1)
 	}
 }
 
